@@ -173,9 +173,9 @@ def gen_cli_status() -> str:
                 raise TranslationError("main: NDJSON branch does not return the status carried by a loop over the input lines")
             rows.append(f"({lean_bool(b)}, {lean_str(pd)}, {trace_lean(r['trace'])}, {lean_str(lp['source'])}, {res_code(lp['init'])})")
             for s_, d, tr, x in lp["steps"]:
-                srows.append(f"({lean_bool(b)}, {lean_str(pd)}, {s_}, {d}, {trace_lean(tr)}, {res_code(x)})")
+                srows.append(f"(({lean_bool(b)}, {lean_str(pd)}, {s_}, {d}), ({trace_lean(tr)}, {res_code(x)}))")
     out.append("def ndjsonTable : List (Bool × String × List String × String × Nat) :=\n  [" + ",\n   ".join(rows) + "]\n")
-    out.append("def ndjsonStepTable : List (Bool × String × Nat × Nat × List String × Nat) :=\n  [" + ",\n   ".join(srows) + "]\n")
+    out.append("def ndjsonStepTable : List ((Bool × String × Nat × Nat) × (List String × Nat)) :=\n  [" + ",\n   ".join(srows) + "]\n")
 
     # --- CLI_ARG_TYPES -------------------------------------------------------------------------------------
     table = None
